@@ -112,243 +112,6 @@ func putWidth(name string) (int, string, bool) {
 	return 0, "", false
 }
 
-// encoderSigs extracts one signature per case label of the encoder switch.
-func (p *Prog) encoderSigs(tb *ieTables) (map[string]codecSig, []string) {
-	out := map[string]codecSig{}
-	var problems []string
-	fd, pk := p.funcDecl("pkg/entities", "", "encodeInfoElementValueToBuff")
-	if fd == nil {
-		return out, []string{"encodeInfoElementValueToBuff not found"}
-	}
-	sws := ieSwitches(pk, fd)
-	if len(sws) != 1 {
-		return out, []string{fmt.Sprintf("encoder has %d IEDataType switches", len(sws))}
-	}
-	for _, c := range clausesOf(pk, sws[0], tb) {
-		if c.Default {
-			continue
-		}
-		sig := codecSig{Form: "unknown", Pos: c.Pos}
-		getters := []string{}
-		for _, m := range methodCallsOn(pk, c.Body, "pkg/entities.InfoElementWithValue") {
-			if isValueAccessor(m) {
-				getters = append(getters, m)
-			}
-		}
-		if len(getters) > 0 {
-			sig.Access = getters[0]
-			for _, g := range getters {
-				if g != getters[0] {
-					problems = append(problems, fmt.Sprintf("encoder case %v uses two getters %s and %s", c.Labels, getters[0], g))
-				}
-			}
-		}
-		onlyReturnErr := len(c.Body) == 1
-		if onlyReturnErr {
-			if rs, ok := c.Body[0].(*ast.ReturnStmt); ok && len(rs.Results) == 1 && strings.HasPrefix(callName(rs.Results[0]), "fmt.Errorf") {
-				sig.Form = "error"
-			}
-		}
-		ast.Inspect(&ast.BlockStmt{List: c.Body}, func(n ast.Node) bool {
-			call, ok := n.(*ast.CallExpr)
-			if !ok {
-				return true
-			}
-			name := types.ExprString(call.Fun)
-			if w, o, ok := putWidth(name); ok && strings.Contains(name, "Put") && sig.Form == "unknown" {
-				dst := strings.ReplaceAll(types.ExprString(call.Args[0]), " ", "")
-				if dst != "buffer[index:]" {
-					return true // prefix writes of the variable-length forms are handled by the prefix scheme
-				}
-				conv, inner := peelConv(pk, call.Args[1])
-				sig.Width, sig.Order, sig.Conv, sig.Form = w, o, conv, "fixed"
-				if callName(inner) == "" || !strings.HasPrefix(callName(inner), "element.Get") {
-					sig.Form = "unknown"
-				}
-			}
-			if name == "copy" && len(call.Args) == 2 && sig.Form == "unknown" {
-				dst := strings.ReplaceAll(types.ExprString(call.Args[0]), " ", "")
-				src := ast.Unparen(call.Args[1])
-				switch {
-				case dst == "buffer[index:index+1]":
-					if cl, ok := src.(*ast.CompositeLit); ok && len(cl.Elts) == 1 {
-						conv, inner := peelConv(pk, cl.Elts[0])
-						sig.Width, sig.Form, sig.Conv = 1, "byte", conv
-						if id, ok := inner.(*ast.Ident); ok && id.Name == "indicator" {
-							sig.Form = "boolean"
-						}
-					}
-				case dst == "buffer[index:]":
-					sig.Form = "raw"
-					if strings.HasPrefix(callName(src), "element.Get") {
-						sig.Extra = ""
-					} else if id, ok := src.(*ast.Ident); ok {
-						sig.Extra = "var:" + id.Name
-					}
-				}
-			}
-			return true
-		})
-		// raw via To4/To16
-		for _, fc := range funcCalls(pk, c.Body) {
-			if strings.HasSuffix(fc, ".To4") {
-				sig.Extra, sig.Width = "To4", 4
-			}
-			if strings.HasSuffix(fc, ".To16") {
-				sig.Extra, sig.Width = "To16", 16
-			}
-		}
-		if sig.Form == "boolean" {
-			sig.Extra = booleanEncoding(pk, c.Body)
-		}
-		if sig.Access == "GetStringValue" {
-			sig.Form = "string"
-		}
-		if sig.Access == "GetOctetArrayValue" {
-			sig.Form = "octets"
-		}
-		for _, l := range c.Labels {
-			out[l] = sig
-		}
-	}
-	return out, problems
-}
-
-// booleanEncoding evaluates "indicator := byte(int8(A)); if !element.GetBooleanValue() { indicator = byte(int8(B)) }".
-func booleanEncoding(pk *packages.Package, body []ast.Stmt) string {
-	cv := func(e ast.Expr) string {
-		if tv, ok := pk.TypesInfo.Types[e]; ok && tv.Value != nil {
-			return tv.Value.ExactString()
-		}
-		return "?"
-	}
-	t, f := "?", "?"
-	for _, st := range body {
-		switch x := st.(type) {
-		case *ast.AssignStmt:
-			if len(x.Lhs) == 1 && types.ExprString(x.Lhs[0]) == "indicator" {
-				t = cv(x.Rhs[0])
-			}
-		case *ast.IfStmt:
-			cond := types.ExprString(x.Cond)
-			for _, s2 := range x.Body.List {
-				if as, ok := s2.(*ast.AssignStmt); ok && len(as.Lhs) == 1 && types.ExprString(as.Lhs[0]) == "indicator" {
-					if cond == "!element.GetBooleanValue()" {
-						f = cv(as.Rhs[0])
-					} else if cond == "element.GetBooleanValue()" {
-						// inverted form: default is the false value
-						f, t = t, cv(as.Rhs[0])
-					}
-				}
-			}
-		}
-	}
-	return fmt.Sprintf("true=%s,false=%s", t, f)
-}
-
-// decoderSigs extracts one signature per case label of the decoder switch.
-func (p *Prog) decoderSigs(tb *ieTables) (map[string]codecSig, []string) {
-	out := map[string]codecSig{}
-	var problems []string
-	fd, pk := p.funcDecl("pkg/entities", "", "DecodeAndCreateInfoElementWithValue")
-	if fd == nil {
-		return out, []string{"DecodeAndCreateInfoElementWithValue not found"}
-	}
-	sws := ieSwitches(pk, fd)
-	if len(sws) != 1 {
-		return out, []string{fmt.Sprintf("decoder has %d IEDataType switches", len(sws))}
-	}
-	for _, c := range clausesOf(pk, sws[0], tb) {
-		if c.Default {
-			continue
-		}
-		sig := codecSig{Form: "unknown", Pos: c.Pos}
-		for _, fc := range funcCalls(pk, c.Body) {
-			if strings.HasPrefix(fc, "New") && strings.HasSuffix(fc, "InfoElement") {
-				sig.Access = fc
-			}
-		}
-		if sig.Access == "" {
-			sig.Form = "error"
-		}
-		ast.Inspect(&ast.BlockStmt{List: c.Body}, func(n ast.Node) bool {
-			switch x := n.(type) {
-			case *ast.AssignStmt:
-				if len(x.Lhs) != 1 || len(x.Rhs) != 1 {
-					return true
-				}
-				lhs := types.ExprString(x.Lhs[0])
-				if lhs != "val" && lhs != "addr" {
-					return true
-				}
-				conv, inner := peelConv(pk, x.Rhs[0])
-				name := callName(inner)
-				if w, o, ok := putWidth(name); ok && types.ExprString(inner.(*ast.CallExpr).Args[0]) == "value" {
-					sig.Width, sig.Order, sig.Conv, sig.Form = w, o, conv, "fixed"
-				} else if types.ExprString(inner) == "value[0]" {
-					sig.Width, sig.Conv, sig.Form = 1, conv, "byte"
-				} else if types.ExprString(inner) == "value" && conv == "string" {
-					sig.Form = "string"
-				} else if name == "append" {
-					args := inner.(*ast.CallExpr).Args
-					if len(args) == 2 && types.ExprString(args[1]) == "value" && inner.(*ast.CallExpr).Ellipsis.IsValid() {
-						if sig.Form == "unknown" {
-							sig.Form = "raw"
-						}
-					}
-				}
-			case *ast.BinaryExpr:
-				if x.Op == token.EQL {
-					conv, inner := peelConv(pk, x.X)
-					if types.ExprString(inner) == "value[0]" {
-						if tv, ok := pk.TypesInfo.Types[x.Y]; ok && tv.Value != nil {
-							sig.Form, sig.Width, sig.Conv = "boolean", 1, conv
-							sig.Extra = "true=" + tv.Value.ExactString()
-						}
-					}
-				}
-			}
-			return true
-		})
-		if sig.Form == "boolean" {
-			// the true constructor must be on the == edge
-			sig.Extra += booleanDecodeEdges(c.Body)
-		}
-		if sig.Access == "NewOctetArrayInfoElement" {
-			sig.Form = "octets"
-		}
-		for _, l := range c.Labels {
-			out[l] = sig
-		}
-	}
-	return out, problems
-}
-
-func booleanDecodeEdges(body []ast.Stmt) string {
-	res := ""
-	for _, st := range body {
-		iff, ok := st.(*ast.IfStmt)
-		if !ok {
-			continue
-		}
-		if be, ok := iff.Cond.(*ast.BinaryExpr); ok && be.Op == token.EQL && strings.Contains(types.ExprString(be.X), "value[0]") {
-			thenS := types.ExprString(iff.Body.List[0].(*ast.ReturnStmt).Results[0])
-			elseS := ""
-			if eb, ok := iff.Else.(*ast.BlockStmt); ok && len(eb.List) > 0 {
-				if rs, ok := eb.List[0].(*ast.ReturnStmt); ok {
-					elseS = types.ExprString(rs.Results[0])
-				}
-			}
-			if strings.Contains(thenS, "true") && strings.Contains(elseS, "false") {
-				res = ",eq=>true,else=>false"
-			} else {
-				res = ",edges=?"
-			}
-		}
-	}
-	return res
-}
-
 // ---------- variable-length prefix scheme (SSA) ----------
 
 func lenOfValue(v ssa.Value) (ssa.Value, bool) {
@@ -424,129 +187,257 @@ func getLengthScheme(f *ssa.Function) (prefixScheme, string) {
 
 func lengthSchemeOf(f *ssa.Function, isLen func(ssa.Value) bool) (prefixScheme, string) {
 	s := prefixScheme{Marker: -1, Max: -1}
-	found := false
-	why := "no comparison of len(value) with a constant found"
-	eachInstr(f, func(in ssa.Instruction) {
-		i, ok := in.(*ssa.If)
-		if !ok {
+	type leaf struct{ lo, hi, k int64 }
+	var leaves []leaf
+	w := &absWalker{MaxPaths: 512}
+	w.OnEnd = func(st *absState, last ssa.Instruction) {
+		rt, ok := last.(*ssa.Return)
+		if !ok || len(rt.Results) != 1 {
 			return
 		}
-		b, ok := i.Cond.(*ssa.BinOp)
-		if !ok {
-			return
+		l := st.linear(rt.Results[0])
+		if l.Sym == "" || l.SymV == nil || !isLen(st.resolve(l.SymV)) {
+			return // the fixed-length leaf (int(Len)) is the subject of the length-accounting rule
 		}
-		c, isC := constInt(b.Y)
-		if !isLen(b.X) || !isC {
-			return
-		}
-		t, ss, ok := normThreshold(b.Op, c)
-		if !ok {
-			return
-		}
-		over := func(blk *ssa.BasicBlock) (int64, bool) {
-			for _, x := range blk.Instrs {
-				if rt, ok := x.(*ssa.Return); ok && len(rt.Results) == 1 {
-					if add, ok := rt.Results[0].(*ssa.BinOp); ok && add.Op == token.ADD {
-						if isLen(add.X) {
-							return constInt(add.Y)
-						}
-					}
-				}
-			}
-			return 0, false
-		}
-		so, ok1 := over(i.Block().Succs[ss])
-		lo, ok2 := over(i.Block().Succs[1-ss])
-		if !ok1 || !ok2 {
-			why = "the two edges do not return len(value)+constant"
-			return
-		}
-		s.Threshold, s.ShortOver, s.LongOver = t, so, lo
-		found = true
-	})
-	if !found {
-		return s, why
+		lo, hi := st.boundsOf(linForm{Sym: l.Sym, SymV: l.SymV})
+		leaves = append(leaves, leaf{lo, hi, l.K})
 	}
+	if len(f.Blocks) == 0 {
+		return s, "no body"
+	}
+	w.walk(newAbsState(), f.Blocks[0], 0)
+	if w.Overflow || w.Looped {
+		return s, "the method is not a loop-free decision on len(value)"
+	}
+	if len(leaves) == 0 {
+		return s, "no comparison of len(value) with a constant found"
+	}
+	haveS, haveL := false, false
+	for _, lf := range leaves {
+		switch {
+		case lf.hi < absInf && lf.lo <= 0:
+			if haveS && (s.Threshold != lf.hi+1 || s.ShortOver != lf.k) {
+				return s, "the short-form exits disagree with each other"
+			}
+			haveS, s.Threshold, s.ShortOver = true, lf.hi+1, lf.k
+		case lf.hi == absInf && lf.lo > 0:
+			if haveL && (s.Max != lf.lo || s.LongOver != lf.k) {
+				return s, "the long-form exits disagree with each other"
+			}
+			haveL, s.Max, s.LongOver = true, lf.lo, lf.k // Max temporarily holds the lower bound of the long form
+		case lf.hi == absInf:
+			return s, fmt.Sprintf("len(value)%+d is returned without a test of the length", lf.k)
+		default:
+			return s, fmt.Sprintf("len(value)%+d is returned for lengths in [%d,%d]: more than two forms", lf.k, lf.lo, lf.hi)
+		}
+	}
+	if !haveS || !haveL {
+		return s, "the two edges do not return len(value)+constant"
+	}
+	if s.Max != s.Threshold {
+		return s, fmt.Sprintf("short form below %d but long form from %d", s.Threshold, s.Max)
+	}
+	s.Max = -1
 	return s, ""
 }
 
-// encoderPrefixSchemes extracts the scheme from each variable-length branch of the encoder (keyed by getter).
+// encoderPrefixSchemes extracts the scheme from each variable-length branch of the encoder (keyed by getter): the paths
+// from the getter call to the function's exits are enumerated; on each, the interval of len(value), the bytes written
+// relative to the index parameter (length octet, marker, two-byte length, payload) and the outcome are collected.
 func encoderPrefixSchemes(enc *ssa.Function) map[string]prefixScheme {
+	s, _ := encoderPrefixSchemesWhy(enc)
+	return s
+}
+
+func encoderPrefixSchemesWhy(enc *ssa.Function) (map[string]prefixScheme, map[string]string) {
 	out := map[string]prefixScheme{}
+	whys := map[string]string{}
+	var idxParam *ssa.Parameter
+	for _, prm := range enc.Params {
+		if _, _, ok := intSize(prm.Type()); ok {
+			idxParam = prm
+		}
+	}
 	eachInstr(enc, func(in ssa.Instruction) {
-		i, ok := in.(*ssa.If)
+		gc, ok := in.(*ssa.Call)
 		if !ok {
 			return
 		}
-		b, ok := i.Cond.(*ssa.BinOp)
-		if !ok {
-			return
-		}
-		val, isLen := lenOfValue(b.X)
-		c, isC := constInt(b.Y)
-		if !isLen || !isC {
-			return
-		}
-		vc, ok := stripChange(val).(*ssa.Call)
-		if !ok {
-			return
-		}
-		getter := calleeName(&vc.Call)
+		getter := calleeName(&gc.Call)
 		getter = getter[strings.LastIndex(getter, ".")+1:]
-		t, ss, ok := normThreshold(b.Op, c)
-		if !ok {
+		if getter != "GetOctetArrayValue" && getter != "GetStringValue" {
 			return
 		}
-		s, have := out[getter]
-		if !have {
-			s = prefixScheme{Marker: -1, Max: -1, Threshold: -1}
+		isL := func(st *absState, v ssa.Value) bool {
+			val, ok := lenOfValue(st.resolve(v))
+			return ok && st.resolve(val) == ssa.Value(gc)
 		}
-		taken := i.Block().Succs[ss] // edge on which len < T
-		// what does the "len < T" edge do? single-byte length store => this is the short/long threshold;
-		// marker store + PutUint16 => this comparison is the maximum
-		kind := ""
-		for _, x := range taken.Instrs {
-			if st, ok := x.(*ssa.Store); ok {
-				if _, ok := st.Addr.(*ssa.IndexAddr); ok {
-					if cv, ok := st.Val.(*ssa.Convert); ok {
-						if _, isL := lenOfValue(cv.X); isL {
-							kind = "short"
+		type leaf struct {
+			lo, hi                       int64
+			len8, marker, len16, payload int64
+			markerVal                    int64
+			success, known               bool
+		}
+		var leaves []leaf
+		w := &absWalker{MaxPaths: 2048}
+		off := func(st *absState, v ssa.Value) (int64, bool) {
+			l := st.linear(v)
+			if idxParam != nil && l.Sym == st.key(idxParam) {
+				return l.K, true
+			}
+			return 0, false
+		}
+		var lSym string
+		var lSymV ssa.Value
+		w.OnInstr = func(st *absState, x ssa.Instruction) {
+			switch y := x.(type) {
+			case *ssa.Store:
+				ia, ok := st.resolve(y.Addr).(*ssa.IndexAddr)
+				if !ok {
+					return
+				}
+				k, ok := off(st, ia.Index)
+				if !ok {
+					return
+				}
+				v := st.resolve(y.Val)
+				if cv, ok := v.(*ssa.Convert); ok && isL(st, cv.X) {
+					st.Events = append(st.Events, absEvent{Kind: "len8", Off: k, In: x})
+				} else if m, ok := constInt(v); ok {
+					st.Events = append(st.Events, absEvent{Kind: "marker", Off: k, Val: m, In: x})
+				}
+			case *ssa.Call:
+				n := calleeName(&y.Call)
+				if b, ok := y.Call.Value.(*ssa.Builtin); ok && b.Name() == "copy" {
+					if st.resolve(stripStringBytes(y.Call.Args[1])) != ssa.Value(gc) {
+						return
+					}
+					if sl, ok := st.resolve(y.Call.Args[0]).(*ssa.Slice); ok && sl.Low != nil {
+						if k, ok := off(st, sl.Low); ok {
+							st.Events = append(st.Events, absEvent{Kind: "payload", Off: k, In: x})
+						}
+					} else if sl != nil && sl.Low == nil {
+						st.Events = append(st.Events, absEvent{Kind: "payload", Off: 0, In: x})
+					}
+				} else if n == "(encoding/binary.bigEndian).PutUint16" && len(y.Call.Args) == 3 {
+					cv, ok := st.resolve(y.Call.Args[2]).(*ssa.Convert)
+					if !ok || !isL(st, cv.X) {
+						return
+					}
+					if sl, ok := st.resolve(y.Call.Args[1]).(*ssa.Slice); ok && sl.Low != nil {
+						if k, ok := off(st, sl.Low); ok {
+							st.Events = append(st.Events, absEvent{Kind: "len16", Off: k, In: x})
 						}
 					}
-					if m, ok := constInt(st.Val); ok && kind == "" {
-						kind = "long"
-						s.Marker = m
-					}
+				}
+				if lv, ok := lenOfValue(y); ok && st.resolve(lv) == ssa.Value(gc) && lSym == "" {
+					lSym, lSymV = st.key(y), y
 				}
 			}
 		}
-		copyOff := func(blk *ssa.BasicBlock) int64 {
-			for _, x := range blk.Instrs {
-				if cc, ok := x.(*ssa.Call); ok {
-					if bi, ok := cc.Call.Value.(*ssa.Builtin); ok && bi.Name() == "copy" {
-						if sl, ok := cc.Call.Args[0].(*ssa.Slice); ok {
-							if add, ok := sl.Low.(*ssa.BinOp); ok && add.Op == token.ADD {
-								if k, ok := constInt(add.Y); ok {
-									return k
-								}
-							}
-						}
-					}
+		w.OnEnd = func(st *absState, last ssa.Instruction) {
+			rt, ok := last.(*ssa.Return)
+			if !ok {
+				return
+			}
+			lf := leaf{len8: -1, marker: -1, len16: -1, payload: -1, markerVal: -1, lo: 0, hi: absInf}
+			if lSym != "" {
+				lf.lo, lf.hi = st.boundsOf(linForm{Sym: lSym, SymV: lSymV})
+			}
+			for _, e := range st.Events {
+				switch e.Kind {
+				case "len8":
+					lf.len8 = e.Off
+				case "marker":
+					lf.marker, lf.markerVal = e.Off, e.Val
+				case "len16":
+					lf.len16 = e.Off
+				case "payload":
+					lf.payload = e.Off
 				}
 			}
-			return -1
+			if len(rt.Results) > 0 {
+				isNil, known := st.nilness(rt.Results[len(rt.Results)-1])
+				lf.success, lf.known = isNil, known
+			}
+			leaves = append(leaves, lf)
 		}
-		switch kind {
-		case "short":
-			s.Threshold = t
-			s.ShortOver = copyOff(taken)
-		case "long":
-			s.Max = t - 1
-			s.LongOver = copyOff(taken)
+		st0 := newAbsState()
+		w.walk(st0, gc.Block(), instrIndex(gc)+1)
+		s := prefixScheme{Marker: -1, Max: -1, Threshold: -1, ShortOver: -1, LongOver: -1}
+		why := ""
+		if w.Overflow || w.Looped {
+			why = "the branch of " + getter + " is not a loop-free decision on the value length"
+		}
+		haveS, haveL := false, false
+		errLo := int64(absInf)
+		for _, lf := range leaves {
+			prefix := lf.len8 >= 0 || lf.len16 >= 0 || (lf.marker >= 0 && lf.len16 >= 0)
+			constrained := lf.lo > 0 || lf.hi < absInf
+			switch {
+			case !lf.known:
+				if prefix && why == "" {
+					why = "an exit that wrote a length prefix returns an error value that cannot be told from nil"
+				}
+			case !lf.success:
+				if constrained && lf.lo < errLo {
+					errLo = lf.lo
+				}
+			case !constrained:
+				if prefix && why == "" {
+					why = "a length prefix is written without a test of the value length"
+				}
+			case lf.len8 >= 0 && lf.len16 < 0:
+				if lf.len8 != 0 && why == "" {
+					why = fmt.Sprintf("the length octet is written at offset %d", lf.len8)
+				}
+				if haveS && (s.Threshold != lf.hi+1 || s.ShortOver != lf.payload) && why == "" {
+					why = "the short-form exits disagree with each other"
+				}
+				if lf.lo > 0 && why == "" {
+					why = fmt.Sprintf("the short form is used from length %d only", lf.lo)
+				}
+				haveS, s.Threshold, s.ShortOver = true, lf.hi+1, lf.payload
+			case lf.len16 >= 0:
+				if (lf.marker != 0 || lf.len16 != 1) && why == "" {
+					why = fmt.Sprintf("long form: marker at offset %d, two-byte length at offset %d (expected 0 and 1)", lf.marker, lf.len16)
+				}
+				if haveL && (s.Max != lf.hi || s.LongOver != lf.payload || s.Marker != lf.markerVal) && why == "" {
+					why = "the long-form exits disagree with each other"
+				}
+				haveL, s.Max, s.LongOver, s.Marker = true, lf.hi, lf.payload, lf.markerVal
+				if haveS && lf.lo != s.Threshold && why == "" {
+					why = fmt.Sprintf("short form below %d but long form from %d", s.Threshold, lf.lo)
+				}
+			default:
+				if why == "" {
+					why = fmt.Sprintf("lengths in [%d,%d] are accepted without a length prefix", lf.lo, lf.hi)
+				}
+			}
+		}
+		if haveL && s.Max == absInf {
+			s.Max = -1
+		}
+		if haveL && s.Max >= 0 && errLo != absInf && errLo != s.Max+1 && why == "" {
+			why = fmt.Sprintf("lengths from %d are refused but the long form ends at %d", errLo, s.Max)
+		}
+		if (!haveS || !haveL) && why == "" {
+			why = "no length-prefix selection found for " + getter
 		}
 		out[getter] = s
+		if why != "" {
+			whys[getter] = why
+		}
 	})
-	return out
+	return out, whys
+}
+
+// stripStringBytes: copy(dst, string) is compiled with the string passed as is; a []byte(s) conversion is transparent.
+func stripStringBytes(v ssa.Value) ssa.Value {
+	if cv, ok := v.(*ssa.Convert); ok {
+		return cv.X
+	}
+	return v
 }
 
 // readerPrefixScheme extracts the scheme of the collector's prefix reader (getFieldLength): one byte b; b < T => b,
